@@ -37,6 +37,9 @@ type receiverStream struct {
 	lastSenderReport     uint32
 	lastSenderReportTime time.Time
 	totalLost            uint32
+	// lostBeyondHistory counts the packets of the current report interval that were
+	// still missing when their entry in packets was reused for a newer packet.
+	lostBeyondHistory uint32
 }
 
 func newReceiverStream(ssrc uint32, clockRate uint32) *receiverStream {
@@ -64,8 +67,6 @@ func (stream *receiverStream) processRTP(now time.Time, pktHeader *rtp.Header) {
 		stream.lastRTPTimeRTP = pktHeader.Timestamp
 		stream.lastRTPTimeTime = now
 	} else { // following frames
-		stream.setReceived(pktHeader.SequenceNumber)
-
 		diff := pktHeader.SequenceNumber - stream.lastSeqnum
 		if diff > 0 && diff < (1<<15) {
 			// wrap around
@@ -74,12 +75,23 @@ func (stream *receiverStream) processRTP(now time.Time, pktHeader *rtp.Header) {
 			}
 
 			// set missing packets as missing
-			for i := stream.lastSeqnum + 1; i != pktHeader.SequenceNumber; i++ {
+			historySize := stream.size * packetsPerHistoryEntry
+			for i := stream.lastSeqnum + 1; ; i++ {
+				// The entry about to be reused still describes packet i-historySize. If that packet
+				// belongs to the current report interval and was never received, count it as lost now:
+				// generateReport can no longer find it in the history.
+				if i-stream.lastReportSeqnum > historySize && !stream.getReceived(i) {
+					stream.lostBeyondHistory++
+				}
+				if i == pktHeader.SequenceNumber {
+					break
+				}
 				stream.delReceived(i)
 			}
 
 			stream.lastSeqnum = pktHeader.SequenceNumber
 		}
+		stream.setReceived(pktHeader.SequenceNumber)
 
 		// compute jitter
 		// https://tools.ietf.org/html/rfc3550#page-39
@@ -129,8 +141,13 @@ func (stream *receiverStream) generateReport(now time.Time) *rtcp.ReceiverReport
 			return 0
 		}
 
-		ret := uint32(0)
-		for i := stream.lastReportSeqnum + 1; i != stream.lastSeqnum; i++ {
+		// packets older than the history have been counted when their entry was reused
+		ret := stream.lostBeyondHistory
+		first := stream.lastReportSeqnum + 1
+		if historySize := stream.size * packetsPerHistoryEntry; totalSinceReport > historySize {
+			first = stream.lastSeqnum - historySize + 1
+		}
+		for i := first; i != stream.lastSeqnum; i++ {
 			if !stream.getReceived(i) {
 				ret++
 			}
@@ -138,6 +155,7 @@ func (stream *receiverStream) generateReport(now time.Time) *rtcp.ReceiverReport
 
 		return ret
 	}()
+	stream.lostBeyondHistory = 0
 	stream.totalLost += totalLostSinceReport
 
 	// allow up to 24 bits
